@@ -389,6 +389,75 @@ func rulesC01(e *Engine, r *Report) {
 		})
 		r.Check(okr, "R01.9", "fileutil.ReadableMD5: returns the digest of that hash object", e.Pos(fn.Pos()), "ReadableMD5 does not return HashHex of the md5 it filled", 1)
 	}
+	// ---------------------------------------------------------------- R01.11
+	r.Rule("R01.11", "the announced hash is the hash of the file that is streamed: on the sending side hashFile.hash is written only with the first result of fileutil.ReadableMD5 applied to the handle the store's opener returned for that very file (scan-time hashing and the retrier's re-hash); hashFile.GetHash returns that field; the payload part and the header take the hash from the part's own file")
+	{
+		n := 0
+		for _, fn := range e.FuncsIn("client") {
+			for _, st := range e.fieldStoresIn(fn, "client.hashFile", "hash") {
+				n++
+				// value: ReadableMD5(<opener>(F)#0)#0 where the object stored into is F
+				var file string
+				ok := false
+				for _, opener := range []string{"p1", "invoke(sts.FileSource.GetOpener)(p0.Conf.Store)"} {
+					pre, suf := "call(fileutil.ReadableMD5)(dyn("+opener+")(", ")#0)#0"
+					if strings.HasPrefix(st.val, pre) && strings.HasSuffix(st.val, suf) {
+						file = st.val[len(pre) : len(st.val)-len(suf)]
+						ok = true
+					}
+				}
+				// the store target must be that file
+				tgtOK := false
+				Instrs(fn, func(in ssa.Instruction) {
+					if s2, ok2 := in.(*ssa.Store); ok2 && e.InstrPos(s2) == st.pos {
+						t := e.Canon(s2.Addr)
+						t = strings.TrimSuffix(strings.TrimPrefix(t, "&"), ".hash")
+						if t == file || t == "assert(*client.hashFile)("+file+")" || "&"+t == file {
+							tgtOK = true
+						}
+					}
+				})
+				r.Check(ok && tgtOK, "R01.11", fmt.Sprintf("%s: hashFile.hash ← ReadableMD5(opener(same file))", e.ShortName(fn)), st.pos,
+					"the hash announced for a file is not computed from the handle opened on that very file: "+shorten(st.val), 1, st.val)
+			}
+		}
+		r.Min("R01.11", "writes of hashFile.hash", n, 2)
+		if fn := needFn(e, r, "R01.11", "client.(*hashFile).GetHash"); fn != nil {
+			ok := false
+			Instrs(fn, func(in ssa.Instruction) {
+				if rt, ok2 := in.(*ssa.Return); ok2 && len(rt.Results) == 1 && e.Canon(rt.Results[0]) == "p0.hash" {
+					ok = true
+				}
+			})
+			r.Check(ok, "R01.11", "client.(*hashFile).GetHash returns the computed hash", e.Pos(fn.Pos()), "GetHash no longer returns the field the hashing writes", 1)
+		}
+		if fn := needFn(e, r, "R01.11", "payload.(*part).GetFileHash"); fn != nil {
+			ok := false
+			Instrs(fn, func(in ssa.Instruction) {
+				if rt, ok2 := in.(*ssa.Return); ok2 && len(rt.Results) == 1 && e.Canon(rt.Results[0]) == "invoke(sts.Binnable.GetHash)(p0.Binnable)" {
+					ok = true
+				}
+			})
+			r.Check(ok, "R01.11", "payload.(*part).GetFileHash forwards the file's hash", e.Pos(fn.Pos()), "a part announces another hash than its file's", 1)
+		}
+		if fn := needFn(e, r, "R01.11", "payload.(*Encoder).startNextPart"); fn != nil {
+			op := e.findInstrs(fn, "dyn(p0.bin.opener)(p0.binPart.Binnable)", false)
+			r.Check(len(op) == 1, "R01.11", "payload.(*Encoder).startNextPart: the bytes streamed come from the opener applied to the part's own file", e.Pos(fn.Pos()), "the encoder opens something else than the part's file", 1)
+		}
+		// both the hasher and the encoder get the opener from the same store
+		var builds []string
+		for _, fn := range e.FuncsIn("client") {
+			for _, in := range e.findInstrs(fn, "dyn(p0.Conf.BuildPayload)(§, invoke(sts.FileSource.GetOpener)(p0.Conf.Store), §)", false) {
+				builds = append(builds, e.ShortName(fn))
+				_ = in
+			}
+		}
+		r.Check(len(builds) >= 1, "R01.11", "client: payloads are built with the opener of the store that is hashed", "", "the payload builder is not given Conf.Store's opener", 1, builds...)
+		if fn := needFn(e, r, "R01.11", "client.(*Broker).hash"); fn != nil {
+			hs := e.findInstrs(fn, "go call(client.(*Broker).hashFiles)(p0, invoke(sts.FileSource.GetOpener)(p0.Conf.Store), §)", false)
+			r.Check(len(hs) == 1, "R01.11", "client.(*Broker).hash: hash workers use Conf.Store's opener", e.Pos(fn.Pos()), "the hash workers open files through another opener than the one payloads are streamed with", 1)
+		}
+	}
 }
 
 func shorten(s string) string {
